@@ -12,1063 +12,906 @@ Definition show_fres (r : fres) : string :=
   end.
 Definition check (rs : list rune) : string := digest (show_fres (format_res rs)).
 Definition full (rs : list rune) : string := show_fres (format_res rs).
-Eval vm_compute in ("<<<M1885>>>" ++ check (runes_of_ascii "options
+Eval vm_compute in ("<<<M1342>>>" ++ check (runes_of_ascii "// top
+options
+    // c0
+{ StringPrefixLenType
+    // c2
+= u64 ; ArrayPrefixLenType // c6
+= u32
+    // c8
+; // c9a
+  // c9b
+FixedStringPadFromLeft
+    // c10
+=
+    // c11
+false // c12
+; } // c14
+packet // c15
+Party // c16
+{ zchar[ // c18
+7 // c19
+] // c20
+OrderId // c21a
+  // c21b
+, // c22
+InTail6 { // c24
+repeat // c25a
+  // c25b
+char[ // c26
+1 ] // c28
+msgKind , // c30
+char[
+    // c31
+3 // c32a
+  // c32b
+] Tail , char[
+    // c36
+3 // c37a
+  // c37b
+]
+    // c38
+Flags // c39
+, // c40a
+  // c40b
+i16 tag7
+    // c42
+, // c43a
+  // c43b
+} ,
+    // c45
+@rightPad
+    // c46
+(
+    // c47
+'0' // c48
+) char[ // c50
+12 // c51a
+  // c51b
+]
+    // c52
+clOrdID
+    // c53
+, // c54
+} packet // c56a
+  // c56b
+Quote // c57a
+  // c57b
+{ @leftPad // c59
+( // c60
+'0' // c61a
+  // c61b
+)
+    // c62
+char[ // c63a
+  // c63b
+11
+    // c64
+]
+    // c65
+price // c66a
+  // c66b
+, // c67
+repeat InCount7 // c69
+{ // c70
+i32 // c71
+x // c72
+, // c73a
+  // c73b
+Party , // c75a
+  // c75b
+u8 // c76a
+  // c76b
+Ref // c77a
+  // c77b
+, u8 // c79
+tag7 // c80
+, // c81
+} ,
+    // c83
+char[] // c84
+seqNo // c85
+,
+    // c86
+Party
+    // c87
+, // c88
+} // c89
+packet // c90
+Logon // c91a
+  // c91b
+{ @rightPad // c93a
+  // c93b
+(
+    // c94
+'\x00'
+    // c95
+) // c96a
+  // c96b
+char[ // c97
+5 ] // c99
+Note
+    // c100
+, i16 sym // c103
+, // c104a
+  // c104b
+InPrice72 // c105
+{ // c106
+char[ 9 // c108
+]
+    // c109
+Ref // c110
+,
+    // c111
+zchar[
+    // c112
+1 ] venue // c115
+, // c116a
+  // c116b
+} // c117a
+  // c117b
+, // c118a
+  // c118b
+char[]
+    // c119
+clOrdID
+    // c120
+, // c121a
+  // c121b
+} // c122
+root
+    // c123
+packet // c124
+Reject { // c126
+repeat // c127a
+  // c127b
+Logon // c128
+, // c129a
+  // c129b
+@leftPad ( // c131
+' ' // c132
+) // c133a
+  // c133b
+char[
+    // c134
+4 // c135a
+  // c135b
+] // c136a
+  // c136b
+seqNo
+    // c137
+,
+    // c138
+zchar[ // c139a
+  // c139b
+5
+    // c140
+] // c141
+Acct // c142
+, // c143
+u32
+    // c144
+x
+    // c145
+, // c146
+u16
+    // c147
+f1
+    // c148
+@lengthOf( // c149a
+  // c149b
+Body // c150a
+  // c150b
+)
+    // c151
+, match x // c154a
+  // c154b
+as
+    // c155
+Body // c156a
+  // c156b
+{ // c157a
+  // c157b
+[
+    // c158
+169
+    // c159
+, 74 ]
+    // c162
+:
+    // c163
+Quote
+    // c164
+, // c165
+45 // c166a
+  // c166b
+: Party // c168a
+  // c168b
+, // c169
+7 // c170
+:
+    // c171
+Logon , // c173
+} // c174
+,
+    // c175
+} // c176a
+  // c176b
+")).
+Eval vm_compute in ("<<<M279>>>" ++ check (runes_of_ascii "  root packet
+    crc {	uint32
+repeatCount //
+@lengthOf( // a // b
+MetaDataX	) `say ""hi""` ,
+    @tag( 65535 ) A {
+    u128 , u8x	{ repeatCount  @lengthOf( As )// c
+,// packet A { u8 x, }
+i32	_x@calculatedFrom(//	t
+""" ++ [128512]%N ++ runes_of_ascii """	), } , } // c
+,
+@lengthOf(As ) @tag(  0 ) @tag(4294967296 ) string metadata ,
+string lengthOf // `tick` ""quote"" 'q'
+@lengthOf(f32a) , @tag( 3 )string packetx,	@lengthOf( Pad) @lengthOf( packetx ) BodyLength @calculatedFrom( ""a	b"" )
+, repeat u8x
+{ zchar[ 3 ]
+    tag `doc` , match As as leftPad
+    { [
+    10 ,
+3 , 7 ,
+""abc"" , 42 // @lengthOf(
+]
+:
+A
+, } , match Header as falsey { 42
+// `tick` ""quote"" 'q'
+// trailing space 
+:
+    msg_type
+    , 00
+: A
+1 :
+charz ,""// no comment"" : int // @lengthOf(
+,	0123456789 :chars , 4294967296
+: x } ,
+}
+    /// triple
+    , @tag(
+10 ) @tag(//x
+007 )
+@calculatedFrom( ""`tick`""
+    )i8i8 @lengthOf(
+    //
+    charz ),
+    char[ 7] Header
+, } packet
+lengthOf // @lengthOf(
+{match metadata
+    // " ++ [128512]%N ++ runes_of_ascii " emoji
+    as asx{ 7 // packet A { u8 x, }
+: //
+float  ,
+    // " ++ [128512]%N ++ runes_of_ascii " emoji
+    """ ++ [233]%N ++ runes_of_ascii "t" ++ [233]%N ++ runes_of_ascii """:
+stringy
+, """ ++ [28040; 24687]%N ++ runes_of_ascii """ :
+BodyLength , 7 : leftPad , } , @lengthOf(MetaDataX
+)repeat zchar[ 7 ]float , @tag( 0
+    )matchKey @calculatedFrom(""packet""
+    ) // packet A { u8 x, }
+, }packet Pad{ options1 @lengthOf(rootA ),} root // c
+packet BodyLength{
+string uint8x
+//
+// " ++ [27880; 37322]%N ++ runes_of_ascii "
+@lengthOf( Z9_) , } // c")).
+Eval vm_compute in ("<<<M134>>>" ++ check (runes_of_ascii "packet // " ++ [128512]%N ++ runes_of_ascii " emoji
+x{
+    //x
+    lengthOf @calculatedFrom(""abc"")
+`u8 x,`
+    ,
+@rightPad( )
+//x
+// @lengthOf(
+float32 Packet @lengthOf( falsey ) ,	char[ 10] falsey , @tag( 3  ) repeat zchar[
+    4294967296 ] repeatCount ,repeatCount`say ""hi""` , int16 u128 // `tick` ""quote"" 'q'
+,
+char[ 3
+] crc
+@calculatedFrom( ""x y"" )
+, // trailing space 
+@leftPad
+    (
+    // " ++ [27880; 37322]%N ++ runes_of_ascii "
+    '\x00' )	match chars as i8i8 {
+    42 : charz// trailing space 
+,}
+, }  options {	} MetaData metadata { char[ 4294967296 ] i8i8	,
+    float
+    rootA , i64
+    packetx // " ++ [27880; 37322]%N ++ runes_of_ascii "
+, i8 // " ++ [27880; 37322]%N ++ runes_of_ascii "
+roots `crlf
+line`
+    ,
+    tag i64_  , uint8 Pad `" ++ [233]%N ++ runes_of_ascii "`
+, }root packet Header{
+u64 options1  `two words`
+    , @calculatedFrom(""a\\"" // trailing space 
+) // " ++ [128512]%N ++ runes_of_ascii " emoji
+i32 //	t
+x_y_z	@calculatedFrom( ""a\""b"")`tab	here` , match
+A as len { [ ""CRC32"" // " ++ [128512]%N ++ runes_of_ascii " emoji
+,""it's""  ] //	t
+: Z9_ ""a	b"" :
+    o ,
+} , match asx
+as pack {0 :	x_y_z , }
+    , char[] i64_ `{ , }`
+,
+    }
+MetaData stringy
+{ // trailing space 
+lengthOf
+// `tick` ""quote"" 'q'
+//	t
+o, string//
+u8x , f32 string_ `doc` ,}
+")).
+Eval vm_compute in ("<<<M1737>>>" ++ check (runes_of_ascii "options
 
 {
 
-    // c1
-	FixedStringPadFromLeft  // c2
-  =// c3
-  true 
-	    // c4
-    ;
-	// c5
-  	FixedStringPadChar // c6
-=  
-  // c7
-      '0'// c8
-  ;	// c9
-  }
+StringPrefixLenType
 
-    packet
-    Leg
-{ 	 // c13a
-    	// c13b
-
-InPrice0 
-
-// c14
-	{	// c15
-    repeat
-    // c16
-
-string  // c17a
-
-// c17b
-    	clOrdID 	 // c18
-	,
-// c19
-	int16 // c20a
-    // c20b
-      msgKind	, 
-      // c22
-	zchar[ 
-        // c23
-
-  5  // c24
-	] // c25
-
-	Px // c26a
-      // c26b
-, // c27a
-	  // c27b
-    } 	 // c28a
-
-	// c28b
-	, 
-  // c29
-i16 // c30
-      f1
-// c31
-      ,
-// c32
-  repeat// c33a
-
-	// c33b
-		f64 // c34a
-	  // c34b
-  Side2 
-// c35
-  	, 
-  // c36
-
-	string // c37
-  Acct  // c38
-    , 
-// c39
+=	u64  ;
+ArrayPrefixLenType
+	= 
+u32 
+; FixedStringPadFromLeft= 
+false;
 }
-packet 	 // c41a
-
-// c41b
-Cancel 	 // c42
-    { 
-  // c43
-	zchar[ 	 // c44a
-	// c44b
-	  4 // c45
-  	]	// c46a
-  // c46b
-clOrdID , // c48a
-	// c48b
-    string
-    // c49
-  seqNo // c50
-	  ,  // c51
-Leg
-	// c52
-	, 
-	    // c53
-  @leftPad	// c54
-	(
-
-    // c55
-
-  '0' 
-	// c56
-)// c57
-  char[
-        // c58
-11 	 // c59
-
-] OrderId // c61
-    ,  // c62
-}  // c63a
-	// c63b
-	packet 
-    // c64
-    Quote  // c65a
-      // c65b
+	packet	Party
 { 
+zchar[	7
 
-// c66
-  repeat// c67a
+]
+	OrderId,
 
-  // c67b
-char[ // c68
-      4 ]
-	// c70
-  sym	,
-    f64	// c73a
+    InTail6
 
-  // c73b
+{
+repeat	char[	1	]
 
-OrderId 
-        // c74
+msgKind  , char[	3
+]
+Tail
+,  char[
 
-	, repeat	Leg// c77
-,  
-      // c78
+3 ]Flags
+	, i16
 
-  repeat	// c79a
+tag7
 
-// c79b
-i64
-	f1 
-	    // c81
+    , } 
+, @rightPad (	'0'	)	char[
+12
+	]  clOrdID ,
+	}
+packet
+Quote{
+@leftPad 
+( 
+'0'
+	) char[
+	11
+    ] price,repeat
+    InCount7  {i32 
+x ,Party,	u8
+    Ref ,u8
+    tag7
+
 ,
+    }  ,char[]
 
-    int16 // c83
-		Note// c84
-    ,// c85
-zchar[	// c86a
-// c86b
-	3 ] // c88
+    seqNo
+    ,  Party ,  } packet Logon	{ @rightPad
+    ( 
+'\x00'
 
-count  // c89a
-	// c89b
-  , // c90
+    )
 
+    char[ 
+5 
+]Note ,
+
+    i16 sym
+,	InPrice72
+{  char[
+9]
+Ref ,zchar[1
+
+]  venue
+
+    , 
 }
 
-    // c91
-    root packet// c93
-	Ack 
+    , char[]
 
-// c94
-  {// c95
-@leftPad  // c96
-		( 
+    clOrdID  ,
+	}
+root
+packet Reject { repeat Logon ,@leftPad
 
-// c97
-		' '  
-      // c98
-)  
-  // c99
-	char[ 10  // c101
+(
+' ' ) char[ 
+4
 
-]	// c102a
-  // c102b
-
-sym 
-  // c103
-    , 
-        // c104
-
-InPx60// c105
-
-	{
-Cancel  // c107
-, // c108a
-
-	// c108b
-repeat
-    char[ 
-1 
-
-// c111
-    ] 	 // c112a
-  // c112b
-
-f1 , // c114a
-    	// c114b
-    string	// c115a
-	  // c115b
-    Tail
-,	// c117
-    repeat 
-// c118
-InNote55
-	{ 
-  // c120
-	int8	// c121
-
-count
-// c122
-    , // c123a
-  	// c123b
-	f64// c124
-      f1  // c125
-  ,  repeat 	 // c127a
-  // c127b
-    Cancel  // c128
-    	,
-	// c129
-      } // c130
-  ,
-char[] // c132
-	tag7
-,// c134a
-// c134b
-  repeat	// c135a
-// c135b
-    	string
-msgKind , // c138a
-  	// c138b
-  }  // c139a
-  	// c139b
-    ,  // c140
-  u8 
-	    // c141
-  lastPx// c142
-    	,  // c143
-match
-    lastPx  
-      // c145
-      as  // c146a
-		// c146b
-    	Body	// c147
-{// c148a
-
-  // c148b
-152// c149
-	:  // c150a
-    // c150b
-Quote
-
+]seqNo
 ,
-173: 
-    // c154
-  Cancel// c155
+zchar[
 
-	, 
-    // c156
-	  4 
-	// c157
-	:Leg
-, 	 // c160a
-// c160b
-  }, // c162a
-// c162b
-	u16 
-Ref  
-  // c164
+    5 ]
 
-  @calculatedFrom( 	 // c165
-    ""CRC32"" )	// c167a
-// c167b
-      ,
-} 	 // c169
+Acct
+	,
+u32
+	x 
+,u16
+f1
+
+@lengthOf( 
+Body ) 
+,match
+	x  as
+	Body
+
+    {
+    [ 
+169 
+,
+    74 
+]  :Quote 
+,
+45
+
+: Party  ,
+    7 
+:
+Logon ,
+
+}
+    ,
+    }
+")).
+Eval vm_compute in ("<<<M104>>>" ++ check (runes_of_ascii "options{  matchKey = ""x y""
+    ;	MetaDataX
+= '0'
+;
+} packet // c
+msg_type { @rightPad ( ' '  )repeat u128 body	, match body	as /// triple
+pack{ [ ""\" ++ [233]%N ++ runes_of_ascii """ , ""1"" ]: BodyLength
+, [ 255
+, ""a	b"" , ""a\\"" , ""{,}""
+,  007 , 007 ,
+    0123456789
+] : options1	,	} ,@leftPad
+()@lengthOf(charz	)
+@tag(	42
+) o{	i32 msg_type @lengthOf( A )// " ++ [27880; 37322]%N ++ runes_of_ascii "
+`doc` ,zchar[ 1] charz  , // c
+i8 packetx`{ , }`,
+msg_type `crlf
+line`
+    , }	,
+@calculatedFrom( ""\" ++ [233]%N ++ runes_of_ascii """ ) Z9_ @calculatedFrom(
+""" ++ [128512]%N ++ runes_of_ascii """ )`tab	here` ,
+repeat char[] Foo ,
+repeat zchar[ 0123456789]	u128
+, }	packet f32a{
+    f32a @lengthOf( matchKey )//x
+, @rightPad (
+    ' ' // " ++ [27880; 37322]%N ++ runes_of_ascii "
+)@lengthOf( chars ) _x Foo  `` ,  match
+    body // c
+as
+    body
+    {	[4294967296
+    , ""packet"", 3 , """ ++ [128512]%N ++ runes_of_ascii """
+,
+0123456789  ]
+: T [ ""a\\"" ]// `tick` ""quote"" 'q'
+: T
+, ""\n""
+:
+u8x , }
+//	t
+//x
+,} //x
+root packet lengthOf
+{ }
+")).
+Eval vm_compute in ("<<<M1344>>>" ++ check (runes_of_ascii "options {
+    StringPrefixLenType = u16;
+    ArrayPrefixLenType = u32;
+    FixedStringPadFromLeft = true;
+    FixedStringPadChar = '0';
+}
+packet Cancel {
+}
+packet Party {
+}
+packet Logon {
+}
+packet Ack {
+}
+packet Logout {
+    repeat InSym87 {
+        InClordid94 {
+            string clOrdID,
+        },
+        string Px,
+        i16 Qty,
+        repeat InCount71 {
+            repeat Cancel,
+            uint16 Tail,
+            char[2] x,
+            repeat string Ref,
+        },
+        Cancel,
+    },
+}
+root packet Order {
+    repeat string tag7,
+    @leftPad(' ') char[3] Px,
+    u8 Qty,
+    match Qty as Body {
+        [28, 62] : Logon,
+        148 : Ack,
+        88 : Party,
+        184 : Cancel,
+    },
+    u16 Note @calculatedFrom(""CRC32""),
+}
+")).
+Eval vm_compute in ("<<<M1644>>>" ++ check (runes_of_ascii "packet charz {
+    //	t
+    repeat i64_,
+    trueish {
+        repeat _x,
+        repeatCount,
+        repeat u16 matchKey `
+                `,
+        // " ++ [128512]%N ++ runes_of_ascii " emoji
+        // a // b
+        matchKey @calculatedFrom(""a\""b"") `it's`,
+    },
+    @tag(007)
+    @calculatedFrom(""a\\"")
+    @tag(3)
+    f32 f32a @lengthOf(asx) `crlf
+        line`,
+    repeat i8 string_,
+    @lengthOf(Logon)
+    @lengthOf(x_y_z)
+    @lengthOf(zchar)
+    repeat char[65535] Foo `" ++ [233]%N ++ runes_of_ascii "`,
+    @calculatedFrom(""abc"")
+    trueish @lengthOf(A),
+    char[0] float,
+    Packet @calculatedFrom(""a	b""),
+}
+
+MetaData Pad {
+    char[00] leftPad,
+    u8 rootA `
+        `,
+    int32 a1 `say ""hi""`,
+    Z9_ float,
+    i32 Pad,
+}")).
+Eval vm_compute in ("<<<M1446>>>" ++ check (runes_of_ascii "// top
+    root	// c0
+		packet // c1
+  	_x	// c2
+  { 	 // c3
+  match  // c4
+    Foo 	 // c5
+	as// c6
+    Z9_ // c7
+{// c8
+""a	b""	// c9
+: 	 // c10
+      Pad// c11
+	,// c12
+		}// c13
+    	,// c14
+repeat // c15
+  x// c16
+		`line1
+line2` // c17
+,  // c18
+	@rightPad // c19
+  ( 	 // c20
+	' '// c21
+  )// c22
+    @calculatedFrom(// c23
+    ""a\\"" 	 // c24
+	)	// c25
+    metadata	// c26
+  	MetaDataX	// c27
+      ,  // c28
+  @tag(// c29
+		0  // c30
+
+  ) 	 // c31
+
+Logon // c32
+	  int  // c33
+    `` // c34
+  ,// c35
+    }  // c36
+
+  options 	 // c37
+    {  // c38
+T	// c39
+  =	// c40
+    '\x00'  // c41
+	}	// c42")).
+Eval vm_compute in ("<<<M1670>>>" ++ check (runes_of_ascii "MetaData packetx {
+    zchar[7] leftPad `// not a comment`,
+}
+
+packet i64_ {
+    @calculatedFrom("""")
+    @lengthOf(x_y_z)
+    @tag(00)
+    repeatCount @calculatedFrom(""1""),
+}
+
+packet falsey {
+    int16 _x @calculatedFrom(""it's""),
+}// @lengthOf(
+
+root packet matchKey {
+    repeat u32 Pad `" ++ [233]%N ++ runes_of_ascii "`,
+    zchar[7] leftPad,
+    match chars as lengthOf {
+        1 : o,
+        42 : chars,
+    },
+    repeat zchar[255] a1,
+    matchKey Packet,
+    f32 tag,
+    @calculatedFrom(""a\""b"")
+    @leftPad(' ')
+    @lengthOf(T)
+    stringy @lengthOf(o),
+    packetx i64_,
+}")).
+Eval vm_compute in ("<<<M1119>>>" ++ check (runes_of_ascii "// top
+root // c0
+packet // c1
+_x // c2
+{ // c3
+match // c4
+Foo // c5
+as // c6
+Z9_ // c7
+{ // c8
+""a	b"" // c9
+: // c10
+Pad // c11
+, // c12
+} // c13
+, // c14
+repeat // c15
+x // c16
+`line1
+line2` // c17
+, // c18
+@rightPad // c19
+( // c20
+' ' // c21
+) // c22
+@calculatedFrom( // c23
+""a\\"" // c24
+) // c25
+metadata // c26
+MetaDataX // c27
+, // c28
+@tag( // c29
+0 // c30
+) // c31
+Logon // c32
+int // c33
+`` // c34
+, // c35
+} // c36
+options // c37
+{ // c38
+T // c39
+= // c40
+'\x00' // c41
+} // c42
+")).
+Eval vm_compute in ("<<<M1499>>>" ++ check (runes_of_ascii "options {
+    LittleEndian = true;
+    StringPrefixLenType = u64;
+    ArrayPrefixLenType = u16;
+    FixedStringPadFromLeft = false;
+    FixedStringPadChar = ' ';
+}
+
+packet Logon {
+    zchar[5] Side2,
+}
+
+root packet Logout {
+    repeat i64 Tail,
+    Logon,
+    repeat i16 OrderId,
+    char[] venue,
+    uint64 x,
+    repeat i16 count,
+    u8 Flags,
+    match Flags as Body {
+        25 : Logon,
+    },
+    u16 Qty @calculatedFrom(""CR\
+    C32""),
+}")).
+Eval vm_compute in ("<<<M1323>>>" ++ check (runes_of_ascii "options {
+    LittleEndian = false;
+    StringPrefixLenType = u8;
+    ArrayPrefixLenType = u64;
+    FixedStringPadFromLeft = false;
+    FixedStringPadChar = ' ';
+}
+packet Reject {
+    repeat char[4] seqNo,
+    string Px,
+}
+root packet Trade {
+    @rightPad('0') char[2] msgKind,
+    repeat f64 price,
+    InAcct79 {
+        repeat Reject,
+        zchar[7] OrderId,
+    },
+    Reject,
+}
+")).
+Eval vm_compute in ("<<<M299>>>" ++ check (runes_of_ascii "// packet A { u8 x, }
+MetaData roots{ char[ 00]lengthOf
+``  , As stringy, x	calculatedFrom ,} packet i8i8	{
+crc `crlf
+line` , @rightPad// a // b
+( )zchar[ 42] falsey // trailing space 
+,
+    /// triple
+    @tag( 42 ) u32	leftPad  , @tag( 42 ) a1@lengthOf( Z9_ ) , match leftPad as crc{ [""a\""b"" , 1
+, 255
+]:	trueish ,3
+: float ,
+0 :lengthOf
+    ,
+} ,}")).
+Eval vm_compute in ("<<<M1191>>>" ++ check (runes_of_ascii "// top
+MetaData // c0
+uint8x // c1
+{ // c2
+char[] // c3
+f32a // c4
+`// not a comment` // c5
+, // c6
+float32 // c7
+roots // c8
+, // c9
+char[ // c10
+7 // c11
+] // c12
+u8x // c13
+, // c14
+zchar[ // c15
+10 // c16
+] // c17
+f32a // c18
+, // c19
+u64 // c20
+pack // c21
+, // c22
+u16 // c23
+pack // c24
+, // c25
+} // c26
+")).
+Eval vm_compute in ("<<<M182>>>" ++ check (runes_of_ascii "root packet int {match MetaDataX	as charz
+{ 255 :uint8x , 65535 : // @lengthOf(
+u128 ""\" ++ [233]%N ++ runes_of_ascii """
+:o,0123456789 : _x ""{,}"" :
+    matchKey
+// `tick` ""quote"" 'q'
+// `tick` ""quote"" 'q'
+[4294967296 ,"""" ,	10
+    ]: charz , }	, @lengthOf( roots
+) x @calculatedFrom( ""\n"" )
+    , i32
+    tag , }")).
+Eval vm_compute in ("<<<M202>>>" ++ check (runes_of_ascii "packet Z9_
+    { @calculatedFrom( ""packet"") char //
+BodyLength , match chars as falsey {[65535,
+    // c
+    """ ++ [128512]%N ++ runes_of_ascii """ ,""" ++ [28040; 24687]%N ++ runes_of_ascii """ , ""`tick`""  , 10,
+    ""a\\"" ,""a\""b"" // @lengthOf(
+]: repeatCount , ""x y"" :chars , // " ++ [128512]%N ++ runes_of_ascii " emoji
+65535
+://x
+calculatedFrom , } , }
+")).
+Eval vm_compute in ("<<<M1854>>>" ++ check (runes_of_ascii "
+packet
+    crc
+
+    {  @leftPad 	 //	t
+	(
+	)
+repeat
+
+charz float
+    ,
+
+    }
+root packet
+
+options1
+{
+@tag(65535/// triple
+)
+
+packetx  {u128 , 
+f32 	 /// triple
+  	a1 ,	}	, 
+}  
+      // trailing space 
  
 ")).
-Eval vm_compute in ("<<<M213>>>" ++ check (runes_of_ascii "
-packet body
-{@tag(
-    3 ) i16 options1 ,  repeat string
-body ,
-@calculatedFrom( // trailing space 
-""a\""b""
-) x_y_z @calculatedFrom(
-""a\\"") `it's` , match o as BodyLength
-{ 00
-:
-pack,
-1 : u	,
-[255,255,""// no comment"" ]
-    : Packet	[ 65535 ] :  i64_ , }
-// @lengthOf(
-//
-,// a // b
-@calculatedFrom( // c
-""" ++ [233]%N ++ runes_of_ascii "t" ++ [233]%N ++ runes_of_ascii """ ) string// `tick` ""quote"" 'q'
-len `tab	here`,
-    @tag( 0123456789
-) repeat
-    //	t
-    matchKey A `a\`,
-    i8i8 Packet , stringy @calculatedFrom( ""x y"" ) ,f32a As
-`crlf
-line` ,u128{ repeat
-    int  {
-    repeat
-    zchar[255 ] a1`{ , }`
-,
-// a // b
-// a // b
-match calculatedFrom as body//	t
-{
-    0 // " ++ [27880; 37322]%N ++ runes_of_ascii "
-:body	42
-    // c
-    :tag // @lengthOf(
-, ""1""	:packetx , ""it's"":  roots,}, i32 u @calculatedFrom(// " ++ [128512]%N ++ runes_of_ascii " emoji
-""a\\"" ) ,
-}	,
-string_`crlf
-line`, _x  , repeat lengthOf crc ,	}, // " ++ [27880; 37322]%N ++ runes_of_ascii "
+Eval vm_compute in ("<<<M1311>>>" ++ check (runes_of_ascii "options {
+    FixedStringPadChar = '0';
 }
-MetaData rootA {
-uint8	tag , string	Z9_ `u8 x,` ,
-    f64 float ,
-    Logon
-falsey`a\`
-, } packet len{  char[] u	`// not a comment`, char[] Header
-`// not a comment`	, string charz
-// a // b
-/// triple
-`tab	here` ,
-    //
-    @leftPad
-    // packet A { u8 x, }
-    ( )@lengthOf(
-a1)
-// " ++ [128512]%N ++ runes_of_ascii " emoji
-//x
-len
-crc, @leftPad ( ' ' )Packet @calculatedFrom(""" ++ [128512]%N ++ runes_of_ascii """ ) , repeat uint8 a1
-, match
-    T as As { ""packet"": Logon , [	""" ++ [128512]%N ++ runes_of_ascii """
-    , 0 ]
-: i64_ , [ ""packet"" , 7
-    ]
-    : string_ ,
-} , repeat//
-zchar[
-007 ] zchar `{ , }` ,
-    }
-")).
-Eval vm_compute in ("<<<M1874>>>" ++ check (runes_of_ascii "root packet 
-roots
-{// `tick` ""quote"" 'q'
+packet Q {
+    zchar[4] z,
+    @rightPad('\x00') char[3] n,
+    char[5] d,
 }
-options { asx=
-""\n""
-    ;
-x_y_z=
-3	; rootA =
-""CRC32"" ;
-
-    float
-
-=
-	char
-    T= false ;
-    } packet  falsey{
-
-    body
-{	match
-    u8x	as	/// triple
-string_
-
-    {  [
-42,
-
-    7
-
-, 65535 ,  3 
-,
-	42
-
-    , 
-7
-	, ""1""
-    ,
-""packet"" ]  : 
-	    // `tick` ""quote"" 'q'
-    	i64_
-
-, 
-[""abc""] : Foo ,
-""a\\""	:
-
-    roots
-
-    ,4294967296
-    : stringy } 
-, //x
-  asx`{ , }` 	 // " ++ [128512]%N ++ runes_of_ascii " emoji
-    , i8
-charz
-    @lengthOf(	// trailing space 
-    x_y_z)// trailing space 
-  `a\` ,
-
-} 
-  // @lengthOf(
-    , @tag(65535
-)
-i64_
-	@lengthOf( tag
-) 
-`u8 x,` 
-
-// a // b
-
-  //	t
-	,
-Z9_
-@lengthOf(  int) ,
-    @calculatedFrom(
-
-""a\""b""
-    ) uint16
-stringy @lengthOf( 
-trueish) 
-, Logon {
-string Logon`say ""hi""`  ,
-
-    packetx i64_
-
-    , match	msg_type
-
-    as
-	float
-{ ""\n""  :
-i64_,
-    [  """ ++ [128512]%N ++ runes_of_ascii """ ] :
-	metadata ,  // `tick` ""quote"" 'q'
-
-[  
-  // trailing space 
-
-	// " ++ [128512]%N ++ runes_of_ascii " emoji
-  10
-
-,
-    ""1""
-]
-	:
-zchar , }
-	, //x
-	}
-
-    //x
-	, Packet  @calculatedFrom( 
-""CRC32""
-
-    )
-,
-    }
-
-")).
-Eval vm_compute in ("<<<M1309>>>" ++ check (runes_of_ascii "// top
-packet // c0a
-  // c0b
-A { // c2
-u8 // c3a
-  // c3b
-a , // c5
-} // c6a
-  // c6b
-packet // c7a
-  // c7b
-B {
-    // c9
-u16 b // c11
-, } // c13a
-  // c13b
-packet // c14
-C
-    // c15
-{
-    // c16
-u32
-    // c17
-c // c18
-, // c19a
-  // c19b
-}
-    // c20
-root packet // c22a
-  // c22b
-M // c23
-{ u16 Kc
-    // c26
-,
-    // c27
-u16 // c28a
-  // c28b
-Kb , // c30
-u16 Ka
-    // c32
-, match // c34a
-  // c34b
-Kc // c35
-as X
-    // c37
-{
-    // c38
-9 // c39
-:
-    // c40
-A
-    // c41
-, 10 :
-    // c44
-B
-    // c45
-,
-    // c46
-} , match
-    // c49
-Kb // c50
-as // c51a
-  // c51b
-Y // c52
-{ 2 // c54a
-  // c54b
-:
-    // c55
-C , // c57
-1 // c58
-: A , // c61a
-  // c61b
-} // c62
-, // c63a
-  // c63b
-match
-    // c64
-Ka as // c66
-Z // c67
-{
-    // c68
-1 // c69a
-  // c69b
-: B // c71a
-  // c71b
-, // c72
-} // c73a
-  // c73b
-, // c74
-A // c75a
-  // c75b
-, // c76
-B
-    // c77
-,
-    // c78
-C , // c80
-} ")).
-Eval vm_compute in ("<<<M371>>>" ++ check (runes_of_ascii "root
-    packet
-packetx
-    {
-    @tag( 0) char[00 ] Z9_
-    ,
-    // a // b
-    falsey
-    // c
-    { match
-    x as options1 { [//	t
-42 ,
-    007 ]:
-    uint8x } , uint8 falsey `crlf
-line` , }
-, f64 Pad
-, @tag(7  ) string Logon// " ++ [27880; 37322]%N ++ runes_of_ascii "
-`a\`, @lengthOf(
-lengthOf//	t
-) char[
-3
-    ]
-// " ++ [27880; 37322]%N ++ runes_of_ascii "
-//
-calculatedFrom @calculatedFrom(
-""" ++ [28040; 24687]%N ++ runes_of_ascii """
-)
-, char[]
-    T , //x
-@tag(
-42 ) @leftPad ( )
-    char[]trueish
-@calculatedFrom(""`tick`"" ) ,match
-    // `tick` ""quote"" 'q'
-    uint8x as pack { [
-    ""abc"",
-    ""1"" ,""packet""
-,
-// `tick` ""quote"" 'q'
-// `tick` ""quote"" 'q'
-1,
-    ""a\""b""]: As	, """ ++ [28040; 24687]%N ++ runes_of_ascii """ :
-    trueish ,} ,
-}
-packet/// triple
-charz
-{
-    repeat
-Z9_ { Pad  {match len as string_{
-    // a // b
-    4294967296
-    : msg_type , [""// no comment""
-    ] :u
-    ,
-} ,} , zchar[
-    65535
-] As  @lengthOf(//x
-string_
-)
-,
-} ,
-    }")).
-Eval vm_compute in ("<<<M90>>>" ++ check (runes_of_ascii "root packet lengthOf
-{ // a // b
-match i64_  as options1{	""// no comment"":
-    // packet A { u8 x, }
-    f32a
-    // @lengthOf(
-    , 65535 :
-    falsey, } ,  @tag(
-0
-)  char[]
-    body
-@lengthOf(  lengthOf ) ,	u64 string_ `it's`,@lengthOf( string_ // packet A { u8 x, }
-)crc {repeat
-zchar[ 3
-] u	,	pack // packet A { u8 x, }
-`a\`// trailing space 
-,char[] crc `` , } //x
-,int16 // packet A { u8 x, }
-metadata `line1
-line2`, }root	packet //	t
-leftPad
-{ repeat	zchar[
-4294967296 //x
-] MetaDataX
-    ,@tag( 10 // `tick` ""quote"" 'q'
-) match  tag as falsey
-{ 7:
-    BodyLength
-, 0 : i64_ ,} , repeat char[ 255
-    // @lengthOf(
-    ] A
-,
-char[ 7]
-trueish @calculatedFrom(	""a\\"" ) `two words`
-// " ++ [128512]%N ++ runes_of_ascii " emoji
-//	t
-, i16
-Logon, }
-")).
-Eval vm_compute in ("<<<M216>>>" ++ check (runes_of_ascii "// " ++ [27880; 37322]%N ++ runes_of_ascii "
-packet chars {match
-charz
-as
-    // trailing space 
-    A // trailing space 
-{0123456789: rootA ,
-    42
-:
-    x , ""1"" :Logon , 7 :u , ""\n"" : packetx , }, char[]MetaDataX
-@calculatedFrom(""""
-) `" ++ [233]%N ++ runes_of_ascii "`
-    // trailing space 
-    ,	@leftPad( ' ' )  char[] Foo,
-    crc , f64 string_ , // " ++ [128512]%N ++ runes_of_ascii " emoji
-char[]
-packetx,i64 u8x@lengthOf(  stringy ) `// not a comment`, repeat zchar {
-repeat
-A _x , lengthOf	@lengthOf( u8x
-) ,	match A as matchKey { 3 :Z9_ , ""// no comment"": As 00 //x
-:
-i64_ ,
-// a // b
-// " ++ [128512]%N ++ runes_of_ascii " emoji
-""a\\""  :i64_ , [ ""`tick`""/// triple
-] : T ,
-    }
-,
-// a // b
-// packet A { u8 x, }
-uint32 T
-`" ++ [28040; 24687; 31867; 22411]%N ++ runes_of_ascii "`
-    , }
-    , uint64
-    /// triple
-    charz
-, }")).
-Eval vm_compute in ("<<<M1294>>>" ++ check (runes_of_ascii "// top
-packet // c0a
-  // c0b
-A // c1
-{
-    // c2
-u8
-    // c3
-a // c4a
-  // c4b
-, } // c6a
-  // c6b
-packet // c7a
-  // c7b
-B // c8a
-  // c8b
-{ u16 // c10
-b // c11a
-  // c11b
-,
-    // c12
-}
-    // c13
-root // c14
-packet P // c16
-{ // c17a
-  // c17b
-u8 K1 // c19
-, // c20
-u8 // c21a
-  // c21b
-K2 // c22a
-  // c22b
-, // c23a
-  // c23b
-match // c24a
-  // c24b
-K1 as
-    // c26
-M1 // c27a
-  // c27b
-{ // c28a
-  // c28b
-1
-    // c29
-:
-    // c30
-A // c31
-, // c32a
-  // c32b
-} , match K2
-    // c36
-as
-    // c37
-M2 // c38
-{ 1 : // c41a
-  // c41b
-B
-    // c42
-, } ,
-    // c45
-} // c46
-")).
-Eval vm_compute in ("<<<M1678>>>" ++ check (runes_of_ascii "// top
-packet P1 {
-    // c2
-    u8 a,
-}// c6
-
-packet P2 {
-    // c9a
-    // c9b
-    P1,
-}// c12a
-
-// c12b
-packet P3 {
-    // c15
-    P2,// c17
-    P1,// c19
-}// c20a
-
-// c20b
-packet P4 {
-    // c23
-    repeat P3,
-    P2,
-}
-
-root packet P5 {
-    // c33
-    P4,
-    // c35
-    P3,
-    P1,
-    // c39
-    u8 K,// c42
-    match K as Body {
-        // c47a
-        // c47b
-        4 : P4,
-        // c51
-        3 : P3,
-        // c55a
-        // c55b
-        2 : P2,
-        // c59
-        1 : P1,
-        // c63a
-    },
-}")).
-Eval vm_compute in ("<<<M33>>>" ++ check (runes_of_ascii "packet
-int {zchar[ 007 ] metadata ,i16	matchKey,
-@rightPad('0')
-@lengthOf(
-    metadata) repeat zchar[
-    10 ]
-//
-// " ++ [128512]%N ++ runes_of_ascii " emoji
-charz
-    // trailing space 
-    ,	} packet int { @tag( 65535 )
-u32 x @calculatedFrom(
-    ""x y""// " ++ [27880; 37322]%N ++ runes_of_ascii "
-),match pack as MetaDataX
-{
-    [	""abc"" ,
-    // " ++ [27880; 37322]%N ++ runes_of_ascii "
-    0123456789 , ""`tick`"" ] :
-body}	, @lengthOf( zchar ) match leftPad as u8x{
-    10:  u8x ,
-[
-007
-    // " ++ [128512]%N ++ runes_of_ascii " emoji
-    , 255
-    ]
-    :
-    chars	"""" :
-    body ,42 : trueish , }, }")).
-Eval vm_compute in ("<<<M1856>>>" ++ check (runes_of_ascii "packet int {
-    zchar[007] metadata,
-    i16 matchKey,
-    @rightPad('0')
-    @lengthOf(metadata)
-    repeat zchar[10] charz,
-}
-
-packet int {
-    @tag(65535)
-    u32 x @calculatedFrom(""x y""),
-    match pack as MetaDataX {
-        [0123456789, ""abc"", ""`tick`""] : body,
-    },
-    @lengthOf(zchar)
-    match leftPad as u8x {
-        10 : u8x,
-        [007, 255] : chars,
-        """" : body,
-        42 : trueish,
-    },
-}")).
-Eval vm_compute in ("<<<M1510>>>" ++ check (runes_of_ascii "
-// top
-  packet  
-  // c0
-	  B
-    // c1
-    {  // c2
-  u8 
-    // c3
-  a // c4
-    ,
-string  // c6
-    s
-        // c7
-  ,
-
-    }root// c10
-  packet 
-// c11
-	P  // c12a
-	// c12b
-{ 
-// c13
-
-u16 
-
-    // c14
-
-L // c15a
-		// c15b
-
-@lengthOf(
-    B 
-        // c17
-    ) 
-
-    // c18
-	,
-// c19
-	B
-
-    // c20
-	,
-	u8  // c22a
-	// c22b
-t 
-    // c23
-		, 	 // c24
-	}
-")).
-Eval vm_compute in ("<<<M248>>>" ++ check (runes_of_ascii "packet a1
-    { char[]	charz @calculatedFrom(
-    //x
-    """ ++ [28040; 24687]%N ++ runes_of_ascii """)
-,
-    uint8x`crlf
-line`
-    , uint64 T  `line1
-line2` ,
-    @leftPad (
-'0')
-// a // b
-/// triple
-@calculatedFrom( ""abc"" )
-@tag( 3 ) match
-int // a // b
-as len
-{ 0	:  chars, [ 10, ""a\\"",
-1 ,0 ,10 , 0
-    ] : body, 007 :
-    // a // b
-    rootA // a // b
-, } , falsey options1 , }
-")).
-Eval vm_compute in ("<<<M12>>>" ++ check (runes_of_ascii "options {falsey =int64; u8x = uint32	uint8x =// " ++ [128512]%N ++ runes_of_ascii " emoji
-zchar[ 1
-]
-// @lengthOf(
-/// triple
-; leftPad =
-    ""a	b"";
-    calculatedFrom
-=
-    false ;	}
-MetaData Packet
-{  zchar[
-7]  As ,} root packet	pack {
-@leftPad ( )	@tag(// trailing space 
-7 ) zchar[ 3 ] u	@lengthOf(
-// @lengthOf(
-// trailing space 
-x ),
+root packet R {
+    Q,
+    zchar[8] top,
+    repeat zchar[2] zs,
 }
 ")).
-Eval vm_compute in ("<<<M1743>>>" ++ check (runes_of_ascii "
+Eval vm_compute in ("<<<M1547>>>" ++ check (runes_of_ascii "
+
+  MetaData
+	leftPad	{	chars MetaDataX
+,
+
+    } 
 packet
-len { // trailing space 
-    repeat
-zchar
-	f32a`// not a comment`, @tag( 255 ) 
-repeat
 
-    Pad
-    {x
-	T ,
+repeatCount
 
-    }
-, 
-@calculatedFrom(
+    {
 
-""{,}"")	repeat 
-	    // a // b
-leftPad	{ u64 u8x
-`tab	here` , o  Packet  ,
-	char[] 
-chars
-	,
-
-    }
-,
-	@tag(	3
-)float64
-i8i8 , 
-}")).
-Eval vm_compute in ("<<<M1372>>>" ++ check (runes_of_ascii "
-options  {
-    LittleEndian
-= true
-;
-}packet
-	Logon{ 
-u8
-	x	, 
-string  user, }packet  Logout	{
-
-u16  reason, } 
-packet	Empty  {} root packet
-    Frame
-{	u16
-MsgType
-,  u8 BodyLen 
-@lengthOf( Body )	, u8
-	flags, 
-Logon
-
-Body ,
-    u32	trailer
-	, } ")).
-Eval vm_compute in ("<<<M183>>>" ++ check (runes_of_ascii "root
-packet tag {
-@calculatedFrom(
-""{,}""
-    // `tick` ""quote"" 'q'
-    )
-@tag(
-//x
-// " ++ [27880; 37322]%N ++ runes_of_ascii "
-42
-    )
-    i64_ @lengthOf( calculatedFrom ) , zchar[// " ++ [128512]%N ++ runes_of_ascii " emoji
-3 // @lengthOf(
-] int  , } root// c
-packet Foo { }
-// @lengthOf(
+    char[
+	255	] uint8x `" ++ [233]%N ++ runes_of_ascii "` ,
+        // c
+  }
+    MetaData pack{ As Foo
+	,	}
 ")).
-Eval vm_compute in ("<<<M265>>>" ++ check (runes_of_ascii "MetaData
-    zchar
-{
-uint8 _x
-// `tick` ""quote"" 'q'
-//
-`doc` ,
-    float64 metadata`doc` // " ++ [128512]%N ++ runes_of_ascii " emoji
-, zchar[ 42
-    ]
-// packet A { u8 x, }
-// c
-x_y_z , zchar[ 3 ]Logon `{ , }`
-, }
-
-")).
-Eval vm_compute in ("<<<M1890>>>" ++ check (runes_of_ascii "packet A {
-    match k as n {
-        [
-            22, 4, 66, 8, 10,
-            ""a"", ""c c"", ""e"", ""g"", ""i"",
-            ""k""
-        ] : B,
-        2 : C,
-    },
-}")).
-Eval vm_compute in ("<<<M1648>>>" ++ check (runes_of_ascii "packet A {
+Eval vm_compute in ("<<<M1834>>>" ++ check (runes_of_ascii "packet A {
     Inner {
         u8 x `a
             b
@@ -1080,40 +923,33 @@ Eval vm_compute in ("<<<M1648>>>" ++ check (runes_of_ascii "packet A {
         },
     },
 }")).
-Eval vm_compute in ("<<<M1515>>>" ++ check (runes_of_ascii "// @lengthOf(
-packet i8i8 {
-    u128 o,
-}
+Eval vm_compute in ("<<<M1272>>>" ++ check (runes_of_ascii "
+options{
+LittleEndian=
 
-options {
-    MetaDataX = true;
-    BodyLength = ""packet""
-    x_y_z = 007
-    crc = ""abc""
-    msg_type = i16
-}")).
-Eval vm_compute in ("<<<M1775>>>" ++ check (runes_of_ascii "packet A {
-    match k as n {
-        [
-            1, 22, 007, 4, 5,
-            66, 7, 8, 9, 10,
-            11
-        ] : B,
-        2 : C,
-    },
-}")).
-Eval vm_compute in ("<<<M472>>>" ++ check (runes_of_ascii "packet uint8x
-{ match pack
-    as msg_type	{
-    0123456789 :	float
-}
+true; } packet
+	B	{
+u8 a
+
+    ,
+string  s, 
+}	root
+
+packet
+
+P
+
+{ u16
+    L
+    @lengthOf(
+
+    B
+)
 ,
-} packet //	t
-a1
-    } { options {packetx
-    = '\x00'	; u128= ""a	b""  ; }
-")).
-Eval vm_compute in ("<<<M530>>>" ++ check (runes_of_ascii "packet uint8x
+B,
+    u8
+t ,  }")).
+Eval vm_compute in ("<<<M541>>>" ++ check (runes_of_ascii "packet uint8x
 { match pack
     as msg_type	{
     0123456789 :	float
@@ -1122,254 +958,266 @@ Eval vm_compute in ("<<<M530>>>" ++ check (runes_of_ascii "packet uint8x
 } packet //	t
 a1
     { } options {packetx
-    = '\x00'	; u128= ""a	b""  ; 
+    = '\x0" ++ [233]%N ++ runes_of_ascii "0'	; u128= ""a	b""  ; }
 ")).
-Eval vm_compute in ("<<<M1893>>>" ++ check (runes_of_ascii "  packet
-	string_{ @lengthOf(
-
-float 
-)	// @lengthOf(
-
-	BodyLength
-    {
-	match	uint8x
-    as i64_{	0123456789
-
-:
-    As
-    ,
-
-    } 
-, } , }
-
+Eval vm_compute in ("<<<M492>>>" ++ check (runes_of_ascii "packet uint8x
+{ match pack
+    as msg_type	{
+    0123456789 :	float
+}
+,
+} packet //	t
+a1
+    { } options {=
+    packetx '\x00'	; u128= ""a	b""  ; }
 ")).
-Eval vm_compute in ("<<<M1589>>>" ++ check (runes_of_ascii "packet A {
+Eval vm_compute in ("<<<M1807>>>" ++ check (runes_of_ascii "packet A {
     match k as n {
         [
-            1, 007, 5, 7, 9,
-            ""bb"", ""d"", ""f"", ""h"", ""j""
+            007, 66, 9, ""a"", ""bb"",
+            ""d"", ""e"", ""g"", ""h"", ""j""
         ] : B,
         2 : C,
     },
 }")).
-Eval vm_compute in ("<<<M1564>>>" ++ check (runes_of_ascii "packet A {
-    u16 len @lengthOf(body) `a
-        
-        b`,
-    u32 crc @calculatedFrom(""CRC32"") `a
-        
-        b`,
-    string body,
-}")).
-Eval vm_compute in ("<<<M1578>>>" ++ check (runes_of_ascii "packet T {
-    int u,
-    @calculatedFrom(""\" ++ [233]%N ++ runes_of_ascii """)
-    // `tick` ""quote"" 'q'
-    repeat string x_y_z,
-    uint32 int `crlf
-        line`,
-}")).
-Eval vm_compute in ("<<<M259>>>" ++ check (runes_of_ascii "  MetaData repeatCount // c
-{char[
-42 // " ++ [27880; 37322]%N ++ runes_of_ascii "
-]
-    // " ++ [128512]%N ++ runes_of_ascii " emoji
-    MetaDataX ,
-    // @lengthOf(
-    zchar[
-// " ++ [27880; 37322]%N ++ runes_of_ascii "
-//x
-0] asx , }
-")).
-Eval vm_compute in ("<<<M680>>>" ++ check (runes_of_ascii "// @lengthOf(
+Eval vm_compute in ("<<<M665>>>" ++ check (runes_of_ascii "// @lengthOf(
 packet i8i8 { u128 o , }
 options { MetaDataX = true;
     BodyLength =""packet"" x_y_z= 007
 crc //x
-= ""abc""")).
-Eval vm_compute in ("<<<M1164>>>" ++ check (runes_of_ascii "MetaData leftPad { chars MetaDataX , } packet repeatCount { char[
-// c
-255 ] uint8x `" ++ [233]%N ++ runes_of_ascii "` , } MetaData pack { As Foo , }")).
-Eval vm_compute in ("<<<M1862>>>" ++ check (runes_of_ascii "
-packet
-    _x
-
-{ 
-}// trailing space 
-    options
-	{ repeatCount
-    = 42	//x
-;
-	Pad=  true ; x_y_z  =
-
-65535
-	; 
-} ")).
-Eval vm_compute in ("<<<M919>>>" ++ check (runes_of_ascii "packet A {
-    u16 len @lengthOf(body) `a
-b`,
-    u32 crc @calculatedFrom(""CRC32"") `a
-b`,
-    string body,
-}")).
-Eval vm_compute in ("<<<M926>>>" ++ check (runes_of_ascii "packet A {
-    Inner {
-        u8 x `a
-b`,
-        Deep {
-            u8 y `a
-b`,
-        },
+= ""abc"" ; ;
+    msg_type =
+i16 }")).
+Eval vm_compute in ("<<<M648>>>" ++ check (runes_of_ascii "// @lengthOf(
+packet i8i8 { u128 o , }
+options { = MetaDataX true;
+    BodyLength =""packet"" x_y_z= 007
+crc //x
+= ""abc"" ;
+    msg_type =
+i16 }")).
+Eval vm_compute in ("<<<M669>>>" ++ check (runes_of_ascii "// @lengthOf(
+packet i8i8 {  o , }
+options { MetaDataX = true;
+    BodyLength =""packet"" x_y_z= 007
+crc //x
+= ""abc"" ;
+    msg_type =
+i16 }")).
+Eval vm_compute in ("<<<M1716>>>" ++ check (runes_of_ascii "packet A {
+    match k as n {
+        [
+            ""a"", ""bb"", ""c c"", ""d"", ""e"",
+            ""f""
+        ] : B,
+        2 : C,
     },
 }")).
-Eval vm_compute in ("<<<M899>>>" ++ check (runes_of_ascii "packet A {
-  match k as n {
-    [1, 22, ""c c"", 4, 5, ""f"", 7, 8, ""i"", 10, 11] : B,
-    2 : C
-  },
-}")).
-Eval vm_compute in ("<<<M624>>>" ++ check (runes_of_ascii "
-packet
-    asx {match u128 as lengthOf
-{
-//	t
-// `tick` ""quote"" 'q'
-255 : x ,
-    } ,	repeat")).
-Eval vm_compute in ("<<<M608>>>" ++ check (runes_of_ascii "
-packet
-    asx {match u128 as lengthOf
-{
-//	t
-// `tick` ""quote"" 'q'
-255 : x , ,
-    } ,	}")).
-Eval vm_compute in ("<<<M574>>>" ++ check (runes_of_ascii "
-packet
-    asx {match as u128 lengthOf
-{
-//	t
-// `tick` ""quote"" 'q'
-255 : x ,
-    } ,	}")).
-Eval vm_compute in ("<<<M643>>>" ++ check (runes_of_ascii "
-packet
-    asx {match x" ++ [178]%N ++ runes_of_ascii " as lengthOf
-{
-//	t
-// `tick` ""quote"" 'q'
-255 : x ,
-    } ,	}")).
-Eval vm_compute in ("<<<M567>>>" ++ check (runes_of_ascii "
-packet
-    asx { u128 as lengthOf
-{
-//	t
-// `tick` ""quote"" 'q'
-255 : x ,
-    } ,	}")).
-Eval vm_compute in ("<<<M823>>>" ++ check (runes_of_ascii "packet A {
-  match k as n {
-    [""a"", ""bb"", 007, ""d"", ""e""] : B,
-    2 : C
-  },
-}")).
-Eval vm_compute in ("<<<M817>>>" ++ check (runes_of_ascii "packet A {
-  match k as n {
-    [1, ""bb"", 007, ""d"", 5] : B,
-    2 : C
-  },
-}")).
-Eval vm_compute in ("<<<M1581>>>" ++ check (runes_of_ascii "packet  A
-
-    {
-
-match
-
-k	as
-
-n { [ 1	, 22 ]
-: B , 2	:C
-    }  , 
-}
+Eval vm_compute in ("<<<M223>>>" ++ check (runes_of_ascii "packet  u { repeat
+    // " ++ [128512]%N ++ runes_of_ascii " emoji
+    A , @lengthOf( lengthOf
+)
+    repeat
+    i64
+i64_
+, //
+zchar[
+3// a // b
+] body , }
 ")).
-Eval vm_compute in ("<<<M801>>>" ++ check (runes_of_ascii "packet A {
+Eval vm_compute in ("<<<M1148>>>" ++ check (runes_of_ascii "MetaData leftPad {
+// c
+chars MetaDataX , } packet repeatCount { char[ 255 ] uint8x `" ++ [233]%N ++ runes_of_ascii "` , } MetaData pack { As Foo , }")).
+Eval vm_compute in ("<<<M1180>>>" ++ check (runes_of_ascii "MetaData leftPad { chars MetaDataX , } packet repeatCount { char[ 255 ] uint8x `" ++ [233]%N ++ runes_of_ascii "` , } MetaData pack
+// c
+{ As Foo , }")).
+Eval vm_compute in ("<<<M1395>>>" ++ check (runes_of_ascii "
+packet A
+{
+	match
+    k
+    as
+n 
+{ [
+	1, 
+""bb""	, 
+007 ,""d"" 
+,	5  ,
+	""f""
+, 7, 
+""h""
+
+]
+    :
+B
+	,2	: C
+},
+	}
+")).
+Eval vm_compute in ("<<<M908>>>" ++ check (runes_of_ascii "packet A {
   match k as n {
-    [1, 22, 007, 4] : B
+    [1, ""bb"", 007, ""d"", 5, ""f"", 7, ""h"", 9, ""j"", 11, ""l""] : B,
     2 : C
   },
 }")).
-Eval vm_compute in ("<<<M1127>>>" ++ check (runes_of_ascii "// top
+Eval vm_compute in ("<<<M888>>>" ++ check (runes_of_ascii "packet A {
+  match k as n {
+    [""a"", ""bb"", 007, ""d"", ""e"", 66, ""g"", ""h"", 9, ""j""] : B,
+    2 : C
+  },
+}")).
+Eval vm_compute in ("<<<M479>>>" ++ check (runes_of_ascii "packet uint8x
+{ match pack
+    as msg_type	{
+    0123456789 :	float
+}
+,
+} packet //	t
+a1
+    {")).
+Eval vm_compute in ("<<<M558>>>" ++ check (runes_of_ascii "
+packet
+    asx asx {match u128 as lengthOf
+{
+//	t
+// `tick` ""quote"" 'q'
+255 : x ,
+    } ,	}")).
+Eval vm_compute in ("<<<M623>>>" ++ check (runes_of_ascii "
+packet
+    asx {match u128 as lengthOf
+{
+//	t
+// `tick` ""quote"" 'q'
+255 : x ,
+    } ,	} }")).
+Eval vm_compute in ("<<<M604>>>" ++ check (runes_of_ascii "
+packet
+    asx {match u128 as lengthOf
+{
+//	t
+// `tick` ""quote"" 'q'
+255 : , x
+    } ,	}")).
+Eval vm_compute in ("<<<M936>>>" ++ check (runes_of_ascii "packet A {
+    B b `a
+    b
+  c`,
+    B `a
+    b
+  c`,
+    repeat B bs `a
+    b
+  c`,
+}")).
+Eval vm_compute in ("<<<M1531>>>" ++ check (runes_of_ascii "
 MetaData
-    // c0
-u
-    // c1
-{ // c2a
-  // c2b
-} // c3
+x 
+{ x
+    Packet
+
+    ,
+
+    i32
+lengthOf,// `tick` ""quote"" 'q'
+}
 ")).
-Eval vm_compute in ("<<<M779>>>" ++ check (runes_of_ascii "packet A {
+Eval vm_compute in ("<<<M1094>>>" ++ check (runes_of_ascii "packet A { u16 // a
+ len // b
+ @lengthOf( // c
+ body // d
+ ) // e
+ `d` // f
+ , }")).
+Eval vm_compute in ("<<<M1282>>>" ++ check (runes_of_ascii "root 
+packet
+
+    P  { u16	a ,
+
+u32
+
+Sum	@calculatedFrom( ""CRC32""
+	) ,
+
+} ")).
+Eval vm_compute in ("<<<M91>>>" ++ check (runes_of_ascii "packet
+roots{ }	MetaData
+    metadata{
+asx matchKey ,
+uint64
+rootA , }")).
+Eval vm_compute in ("<<<M795>>>" ++ check (runes_of_ascii "packet A {
   match k as n {
-    [1, 22] : B
+    [1, 22, ""c c""] : B,
     2 : C
   },
 }")).
-Eval vm_compute in ("<<<M27>>>" ++ check (runes_of_ascii "options{Logon = """ ++ [28040; 24687]%N ++ runes_of_ascii """
-    ; BodyLength =
-    false
-; }
-")).
-Eval vm_compute in ("<<<M1206>>>" ++ check (runes_of_ascii "packet body { i32
-// c
-f32a `{ , }` , } options { }")).
-Eval vm_compute in ("<<<M1417>>>" ++ check (runes_of_ascii "root
+Eval vm_compute in ("<<<M1592>>>" ++ check (runes_of_ascii "root packet
+x{
 
-    packet 
-A
-	{	u8
-x `tab
-	x` ,
-    }
-")).
-Eval vm_compute in ("<<<M212>>>" ++ check (runes_of_ascii "packet
-    MetaDataX {i16 u128`" ++ [233]%N ++ runes_of_ascii "` , //x
-}")).
-Eval vm_compute in ("<<<M1786>>>" ++ check (runes_of_ascii "packet 
-A
+    roots
+@calculatedFrom(
 
-{u8
-x `d" ++ [11]%N ++ runes_of_ascii "` ,	// c" ++ [11]%N ++ runes_of_ascii "
-  	}
-")).
-Eval vm_compute in ("<<<M1284>>>" ++ check (runes_of_ascii "root packet P {
-    string s,
+""a\""b""
+    ),
+
 }
 ")).
-Eval vm_compute in ("<<<M1038>>>" ++ check (runes_of_ascii "packet A {
- u8 x `d" ++ [12]%N ++ runes_of_ascii "`, // c" ++ [12]%N ++ runes_of_ascii "
-}")).
-Eval vm_compute in ("<<<M1930>>>" ++ check (runes_of_ascii "packet A {
-    char[3] x,
-}")).
-Eval vm_compute in ("<<<M1112>>>" ++ check (runes_of_ascii "MetaData tag { }
-// c
-")).
-Eval vm_compute in ("<<<M1535>>>" ++ check (runes_of_ascii "packet A{
-} 
-// c" ++ [8233]%N ++ runes_of_ascii "
-")).
-Eval vm_compute in ("<<<M1001>>>" ++ check (runes_of_ascii "packet A {
+Eval vm_compute in ("<<<M1222>>>" ++ check (runes_of_ascii "// top
+packet
+    // c0
+x
+    // c1
+{
+    // c2
 }
-// c" ++ [8192]%N)).
-Eval vm_compute in ("<<<M172>>>" ++ check (runes_of_ascii "packet
-len { }
+    // c3
+")).
+Eval vm_compute in ("<<<M1527>>>" ++ check (runes_of_ascii "packet body {
+    i32 f32a `{ , }`,
+}
+
+options {
+}// c")).
+Eval vm_compute in ("<<<M1214>>>" ++ check (runes_of_ascii "packet body { i32 f32a `{ , }` , }
+// c
+options { }")).
+Eval vm_compute in ("<<<M7>>>" ++ check (runes_of_ascii "options {  metadata = ""a\\""// @lengthOf(
+;}
+")).
+Eval vm_compute in ("<<<M1430>>>" ++ check (runes_of_ascii "packet
+    A 
+{u8 x
+    `d" ++ [133]%N ++ runes_of_ascii "`,  // c" ++ [133]%N ++ runes_of_ascii "
+  }
+")).
+Eval vm_compute in ("<<<M1629>>>" ++ check (runes_of_ascii "root packet A {
+    u8 x `x
+    `,
+}")).
+Eval vm_compute in ("<<<M1712>>>" ++ check (runes_of_ascii "packet A {
+    u8 x `d" ++ [8203]%N ++ runes_of_ascii "`,// c" ++ [8203]%N ++ runes_of_ascii "
+}")).
+Eval vm_compute in ("<<<M175>>>" ++ check (runes_of_ascii "
+packet calculatedFrom { } 	 ")).
+Eval vm_compute in ("<<<M1881>>>" ++ check (runes_of_ascii "packet
+
+A{  }
+	    // c" ++ [65279]%N)).
+Eval vm_compute in ("<<<M153>>>" ++ check (runes_of_ascii "// trailing space 
 
 ")).
-Eval vm_compute in ("<<<M356>>>" ++ check (runes_of_ascii "packet uint8x {}")).
-Eval vm_compute in ("<<<M29>>>" ++ check (runes_of_ascii "// " ++ [27880; 37322]%N ++ runes_of_ascii "
+Eval vm_compute in ("<<<M1062>>>" ++ check (runes_of_ascii "// c x
+packet A {
+}")).
+Eval vm_compute in ("<<<M1017>>>" ++ check (runes_of_ascii "// c" ++ [8233]%N ++ runes_of_ascii "
+packet A {
+}")).
+Eval vm_compute in ("<<<M989>>>" ++ check (runes_of_ascii "packet A {
+}// c" ++ [133]%N)).
+Eval vm_compute in ("<<<M761>>>" ++ check (runes_of_ascii "{];z" ++ [65533]%N ++ runes_of_ascii """t" ++ [65533; 65533; 65533]%N ++ runes_of_ascii "XKU" ++ [65533; 2]%N)).
+Eval vm_compute in ("<<<M1394>>>" ++ check (runes_of_ascii "
+// c" ++ [8232]%N)).
+Eval vm_compute in ("<<<M1589>>>" ++ check (runes_of_ascii "
 
-")).
-Eval vm_compute in ("<<<M733>>>" ++ check (runes_of_ascii "
-
-
-")).
+  ")).
